@@ -14,7 +14,7 @@ for d in sorted(glob.glob('/verif/seeded/*/meta.json')):
         keys += m['checks'][k]['violation_keys'][:3]
     first = (m.get('needs_to_manifest') or '').strip().splitlines()
     title = first[0].lstrip('# ').strip() if first else ''
-    rows.append((name, m.get('confirmed'), ', '.join(caught_by) or 'MISSED', ' '.join(keys)[:140], title[:110]))
+    rows.append((name, m.get('confirmed'), ', '.join(caught_by) or ('MISSED' if m.get('confirmed') else 'n/a (change not confirmed on the current tree)'), ' '.join(keys)[:140], title[:110]))
 with open('/verif/seeded/SUMMARY.md', 'w') as f:
     f.write('# Independent seeded changes and the checks that catch them\n\n')
     f.write('Produced by sub-agents that saw only the property text and a scratch worktree; re-confirmed and run by '
